@@ -144,14 +144,16 @@ pub fn brakedown_custom(rec: &mut Rec) {
     let q = modulus_of::<Fr381>();
     for (an, alpha, beta, rho) in [("lowest-terms", (89usize, 500usize), (61usize, 1000usize), (1521usize, 1000usize)), ("scaled", (356, 2000), (183, 3000), (1521, 1000)), ("default-denominators", (178, 1000), (61, 1000), (1521, 1000))] {
         for k in [6usize, 8, 10] {
+          for sec in [128usize, 16, 10] {
             for wf in [true, false] {
-                let id = format!("BRK/custom/{}/nv={}/wf={}", an, k, wf);
+                // low security levels reach the regime where the column count is NOT capped by the codeword length
+                let id = if sec == 128 { format!("BRK/custom/{}/nv={}/wf={}", an, k, wf) } else { format!("BRK/custom/{}/nv={}/wf={}/lambda={}", an, k, wf, sec) };
                 if !rec.take(&id) {
                     continue;
                 }
                 rec.dim("scheme", "BRK");
                 rec.op(3);
-                let ck: CK<SBrk> = BrakedownPCParams::new(128, alpha, beta, rho, 1 << (k + 1), 1, 1 << k, Vec::new(), Vec::new(), Vec::new(), Vec::new(), wf, (), (), ());
+                let ck: CK<SBrk> = BrakedownPCParams::new(sec, alpha, beta, rho, 1 << (k + 1), 1, 1 << k, Vec::new(), Vec::new(), Vec::new(), Vec::new(), wf, (), (), ());
                 let cfg = KeyCfg::ml(k);
                 let keys = Keys::<SBrk> { cfg: cfg.clone(), pp: ck.clone(), ck: ck.clone(), vk: ck.clone() };
                 let dist_ref = (rho.1 * beta.0, rho.0 * beta.1);
@@ -178,7 +180,10 @@ pub fn brakedown_custom(rec: &mut Rec) {
                 let cm: MComm = convert(c.comms[0].commitment());
                 let bp: BPf<SBrk> = vec![s1.proof.clone()];
                 let pfl: Vec<Vec<MProof<Fr381>>> = convert(&bp);
-                let want = ref_t(&q, 128, dist_ref, cm.metadata.n_ext_cols);
+                let want = ref_t(&q, sec, dist_ref, cm.metadata.n_ext_cols);
+                if want.map(|t| t < cm.metadata.n_ext_cols).unwrap_or(false) {
+                    rec.class("uncapped-regime");
+                }
                 let got = pfl[0][0].opening.columns.len();
                 let ok = want == Some(got) && pfl[0][0].opening.paths.len() == got;
                 rec.class(if ok { "columns-ok" } else { "columns-bad" });
@@ -193,6 +198,7 @@ pub fn brakedown_custom(rec: &mut Rec) {
                 }
                 rec.sample("BRK-custom", id.clone());
             }
+          }
         }
     }
 }
@@ -210,6 +216,24 @@ where
             let mut c = KeyCfg::uni(1 << 20, 1 << 20, 1, None);
             c.lc = Some(lc);
             cfgs.push(c);
+        }
+    }
+    // low security levels, with and without the well-formedness check: the column count is then below the codeword
+    // length already for small polynomials (otherwise every small proof opens the whole codeword and the count says nothing)
+    if S::NAME == "LIG" {
+        for lc in [(20usize, 4usize, false), (20, 2, false), (20, 2, true), (40, 4, false), (12, 3, false)] {
+            let mut c = KeyCfg::uni(1 << 20, 1 << 20, 1, None);
+            c.lc = Some(lc);
+            cfgs.push(c);
+        }
+    }
+    if S::NAME == "MLL" {
+        for nv in [9usize, 10] {
+            for lc in [(20usize, 2usize, false), (20, 4, false), (12, 2, true)] {
+                let mut c = KeyCfg::ml(nv);
+                c.lc = Some(lc);
+                cfgs.push(c);
+            }
         }
     }
     if S::NAME == "MLL" {
@@ -259,6 +283,9 @@ where
                 viol(rec, &format!("{}/params/distance", S::NAME), &id, format!("distance() = {:?} but the parameters give {:?}", keys.ck.distance(), dist_ref));
             }
             let want = ref_t(&q, keys.ck.sec_param(), dist_ref, n_ext);
+            if want.map(|t| t < n_ext).unwrap_or(false) {
+                rec.class("uncapped-regime");
+            }
             let mut ok = pf.len() == 1;
             let mut bad = String::new();
             if ok {
